@@ -115,6 +115,21 @@ PROPS["C15"] = dict(
                  "where a validator setting relaxes the mutated check the verdict is 'accepted, or rejected with the expected identification'"],
 )
 
+SESSION_NOTE = ("Trusted base: the Go toolchain, rapid v1.3.0, the verif hook export in /repo (calls the run loop's own entry points one at a time), "
+                "the rig/peer/fixwire packages under /verif. The session is driven synchronously: thread schedules of the real run loop are not explored here.")
+
+PROPS["C04"] = dict(
+    pkg="./props/session", level="exploration", design_ref="DESIGN.md §3 C04, Appendix B",
+    technique="rapid state-machine scenarios in closed loop with a simulated FIX counterparty; oracle = light sequencing model of ResendRequests kept from observable facts + end-state equivalence with the counterparty's sent history",
+    level_note=SESSION_NOTE,
+    stages=[dict(name="rapid", kind="rapid", run="^TestC04_Rapid$", checks=(1500, 30000), shards=(12, 16), timeout=(600, 3000))],
+    require=["scenario-with:gap-on-logon", "scenario-with:live-stashed-during-recovery", "scenario-with:two-or-more-chunks", "scenario-with:reconnect",
+             "scenario-with:inbound-while-pending-during-recovery", "scenario-with:chunk-relation:smaller-than-gap", "scenario-with:chunk-relation:none"],
+    assumptions=["the counterparty answers one ResendRequest at a time and writes each replay contiguously (FIFO link); live messages may precede or follow a replay",
+                 "'eventually' is decided as 'by the end of the scenario after the stabilisation phase'",
+                 "SendingTime is taken from the real clock, far inside the latency window"],
+)
+
 NOT_APPLICABLE = {}
 
 HOOK_COMMITS = ["ce15100"]
